@@ -321,7 +321,7 @@ class SimSSHServer:
             self.w.fired(mode)
             return 'refuse' if mode == 'refuse_after' else 'blackhole'
         for f in self.faults:
-            if f.get('conn') == n and f['kind'] in ('refuse', 'blackhole'):
+            if f['kind'] in ('refuse', 'blackhole') and (f.get('conn') == n or ('conn_from' in f and n >= int(f['conn_from']))):
                 self.w.fired(f['kind'])
                 return f['kind']
         return 'accept'
